@@ -231,8 +231,9 @@ class Extract:
        `at` = (bb, stmt index) of the use: a local with several definitions is resolved to the single definition that reaches
        the use (block-level reaching definitions); without a position, or with several reaching definitions, it is unknown."""
 
-    def __init__(self, prog, pv, leaf=None, max_depth=80):
+    def __init__(self, prog, pv, leaf=None, max_depth=80, fold_named=False):
         self.prog = prog
+        self.fold_named = fold_named  # a named scalar float constant whose value the compiler folded is replaced by that value
         self.pv = pv
         self.leaf = leaf or (lambda ex, body, kind, obj: None)
         self.max_depth = max_depth
@@ -245,6 +246,10 @@ class Extract:
             if c.get("int") is not None:
                 return C(c["int"])
             if c.get("named") and c.get("def"):
+                if self.fold_named:
+                    fv = op.float_value()
+                    if fv is not None and fv == fv and fv not in (float("inf"), float("-inf")):
+                        return C(Fraction(str(fv)))
                 return S("const:%s" % c["def"])  # a named crate constant stays a symbol in formulas (its value is judged where it is defined)
             fv = op.float_value()
             if fv is not None:
@@ -358,7 +363,7 @@ class Extract:
 
     def _inline(self, tg, args, depth):
         """result expression of a loop-free helper, parameters replaced by `args`; None if it has several different results"""
-        sub = Extract(self.prog, self.pv, self._inline_leaf(args), self.max_depth)
+        sub = Extract(self.prog, self.pv, self._inline_leaf(args), self.max_depth, fold_named=self.fold_named)
         rets = []
         for kind, pos, d in self.pv.defs(tg).get(0, []):
             e = sub.rvalue(tg, d, depth, pos) if kind == "assign" else sub.call(tg, d, depth, pos)
